@@ -192,10 +192,10 @@ theorem readHeader_block {r : Reader} {bs post : List Byte} (h : Idle r (Spec.en
 
 /-- with fewer than two bytes left the tape has ended -/
 theorem readHeader_end {r : Reader} {post : List Byte} (h : Idle r post) (hp : post.length < 2) :
-    ∃ r1, readHeader r = (.ok false, r1) ∧ r1.tapeEnded = true := by
+    ∃ r1, readHeader r = (.ok false, r1) ∧ r1.tapeEnded = true ∧ r1.buffer.length = 128 := by
   unfold readHeader
   have h2 : ¬ 2 ≤ r.asset.rest.length := by rw [h.rest]; omega
-  simp [Asset.readExact, h2]
+  simp [Asset.readExact, h2, h.buflen]
 
 theorem nextBlock_idle {r : Reader} {post : List Byte} (h : Idle r post) : nextBlock r = readHeader r := by
   unfold nextBlock
@@ -357,7 +357,7 @@ theorem nextBlock_block {r : Reader} {bs post : List Byte} (h : Ahead r (Spec.en
   rw [he]; exact readHeader_block hi hlen
 
 theorem nextBlock_end {r : Reader} {post : List Byte} (h : Ahead r post) (hp : post.length < 2) :
-    ∃ r1, nextBlock r = (.ok false, r1) ∧ r1.tapeEnded = true := by
+    ∃ r1, nextBlock r = (.ok false, r1) ∧ r1.tapeEnded = true ∧ r1.buffer.length = 128 := by
   obtain ⟨r', hi, he⟩ := h.toIdle
   rw [he]; exact readHeader_end hi hp
 
